@@ -217,6 +217,19 @@ pub fn run(sc: &Scenario) -> Result<(Option<(String, String)>, bool), String> {
 				}
 				Ok(()) => {
 					let got = w2.dump()?;
+					if failed {
+						// the refused batch must not come back through the commit log either
+						for wr in &batch {
+							if let Some((_, gv)) = got.iter().find(|(gk, _)| gk == &wr.key) {
+								if gv == &wr.value {
+									let _ = w2.close();
+									drop(w2);
+									let _ = std::fs::remove_dir_all(&img);
+									return Ok((Some(("failed-batch-recovered-after-crash".into(), format!("key {} of the batch whose commit returned an error is present in the recovered crash image", String::from_utf8_lossy(&wr.key)))), failed));
+								}
+							}
+						}
+					}
 					let mut last: std::collections::BTreeMap<Vec<u8>, Vec<u8>> = Default::default();
 					for (k, v) in &acked_after {
 						last.insert(k.clone(), v.clone());
